@@ -1,7 +1,7 @@
 (* Bridge: the picture-header field decoders of h263/src/parser/picture.rs as translated from the Rust source on this run
    (gen/GenPHeader.v, tools/rs2v_parser.py) equal the hand-written model's (model/Header.v) on every reader: field
    positions, widths, masks, polarities, the accumulation of mode flags and followers, the error cases. *)
-From H263V Require Import base.Prelude base.Checked model.Types model.Tables model.Reader model.Header gen.GenPHeader bridge.KTactics proofs.ReaderLemmas.
+From H263V Require Import base.Prelude base.Checked model.Types model.Tables model.Reader model.Header gen.GenPHeader bridge.KTactics proofs.ReaderLemmas proofs.LoopBound.
 Require Import ZifyBool.
 Ltac Zify.zify_post_hook ::= Z.div_mod_to_equations.
 
@@ -249,4 +249,122 @@ Proof.
     generalize dependent (Z.shiftr (Z.land v 229376) 15). intros f Hf.
     cases_below f 8%nat; cbn [Z.eqb Pos.eqb];
       first [ rewrite (bridge_opp_stage o v r1 _ false) | rewrite (bridge_opp_stage o v r1 _ true) ]; reflexivity.
+Qed.
+
+(* ------------------------------------------------------------------ decode_picture: the whole header *)
+(* relational congruence for bind: a stage of the generated parser against the stage of the model *)
+Definition res_rel {A A'} (R : A -> A' -> Prop) (m : res A) (m' : res A') : Prop :=
+  match m, m' with
+  | Ok a, Ok a' => R a a'
+  | Err e, Err e' => e = e'
+  | Panic p, Panic p' => p = p'
+  | OutOfFuel, OutOfFuel => True
+  | _, _ => False
+  end.
+
+Lemma bind_rel {A A' B} (R : A -> A' -> Prop) (m : res A) (m' : res A') (k : A -> res B) (k' : A' -> res B) :
+  res_rel R m m' -> (forall x x', R x x' -> k x = k' x') -> bind m k = bind m' k'.
+Proof.
+  intros Hm Hk. destruct m, m'; cbn in *; try contradiction; try (subst; reflexivity). apply Hk, Hm.
+Qed.
+
+Lemma res_rel_eq {A} (m : res A) : res_rel eq m m.
+Proof. destruct m; cbn; auto. Qed.
+
+Lemma bind_eq {A B} (m m' : res A) (k k' : A -> res B) : m = m' -> (forall x, k x = k' x) -> bind m k = bind m' k'.
+Proof. intros -> H. destruct m'; cbn; auto. Qed.
+
+Lemma has_1 z : has z 1 = Z.testbit z 0. Proof. apply (has_pow2 z 0). lia. Qed.
+Lemma has_2 z : has z 2 = Z.testbit z 1. Proof. apply (has_pow2 z 1). lia. Qed.
+Lemma has_4 z : has z 4 = Z.testbit z 2. Proof. apply (has_pow2 z 2). lia. Qed.
+Lemma has_8 z : has z 8 = Z.testbit z 3. Proof. apply (has_pow2 z 3). lia. Qed.
+Lemma has_16 z : has z 16 = Z.testbit z 4. Proof. apply (has_pow2 z 4). lia. Qed.
+Lemma has_32 z : has z 32 = Z.testbit z 5. Proof. apply (has_pow2 z 5). lia. Qed.
+
+Lemma bridge_p_decode_picture o prev r : p_decode_picture o prev r = decode_picture o prev r.
+Proof.
+  unfold p_decode_picture, decode_picture.
+  destruct (recognize_start_code false r) as [[sk|]| | |] eqn:Esc; cbn [bind]; try reflexivity.
+  destruct (recognize_start_code_window r sk Esc) as [Hsk1 Hsk2]. cbv zeta.
+  rewrite add_c_ok by krange. cbn [bind].
+  destruct (skip_bits (17 + sk) r) as [r1| | |]; cbn [bind]; try reflexivity.
+  step_read. cbv zeta. rename v into gob.
+  destruct (sorenson o) eqn:Eso.
+  - (* Sorenson *)
+    step_read. cbv zeta. rewrite bridge_p_decode_sorenson_ptype.
+    destruct (decode_sorenson_ptype r2) as [[[[fmt ty] opts] r3]| | |]; cbn [bind]; try reflexivity.
+  - destruct (negb (gob =? 0)); [reflexivity|].
+    autounfold with pgen.
+    (* temporal reference byte *)
+    apply bind_eq; [reflexivity|]. intros [low r2]. cbv beta iota.
+    (* PTYPE *)
+    rewrite bridge_p_decode_ptype. apply bind_eq; [reflexivity|]. intros [[opts0 fat] r3]. cbv beta iota.
+    (* PLUSPTYPE and CPM, or the plain PTYPE *)
+    eapply (bind_rel (fun x x' =>
+              let '(f, t, F, p, op, mx, os, rd) := x in
+              let '(os', f', t', fol', p', op', mx', rd') := x' in
+              f = f' /\ t = t' /\ fol' = fol_of_bits F /\ p = p' /\ op = op' /\ mx = mx' /\ os = os' /\ rd = rd')).
+    { destruct fat as [[fmt0 ty0]|]; [cbn; repeat split; reflexivity|].
+      pose proof (bridge_p_decode_plusptype o (match prev with Some p => options p | None => 0 end) r3) as HP.
+      destruct (p_decode_plusptype o _ r3) as [[[[[[xo mf] ty1] F1] opp1] r4]| | |]; cbn [plus_map] in HP; rewrite <- HP; cbn [bind res_rel]; try reflexivity.
+      rewrite bridge_p_decode_cpm_and_psbi.
+      destruct (decode_cpm_and_psbi r4) as [[mx1 r5]| | |]; cbn; try reflexivity. repeat split; reflexivity. }
+    intros [[[[[[[f t] F] p] op] mx] os] rd] [[[[[[[os' f'] t'] fol'] p'] op'] mx'] rd'] (-> & -> & -> & -> & -> & -> & -> & ->).
+    cbv beta iota. cbn [f_custom_format f_custom_clock f_mv_range f_slice_submode f_ref_layer f_rps_mode fol_of_bits].
+    rewrite ?has_1, ?has_2, ?has_4, ?has_8, ?has_32. unfold tb.
+    (* CPFMT *)
+    apply bind_eq.
+    { destruct (Z.testbit F 0); [|reflexivity]. rewrite <- bridge_p_decode_cpfmt.
+      destruct (p_decode_cpfmt rd') as [[[[pa w] h] r9]| | |]; reflexivity. }
+    intros [fmt2 r6]. cbv beta iota.
+    (* CPCFC: only its presence matters afterwards *)
+    eapply (bind_rel (fun x x' => snd x = snd x' /\ (match fst x with Some _ => true | None => false end) = (match fst x' with Some _ => true | None => false end))).
+    { destruct (Z.testbit F 1); [|cbn; split; reflexivity]. rewrite bridge_p_decode_cpcfc. unfold read_u8.
+      destruct (read_bits 8 8 r6) as [[c r9]| | |]; cbn; auto. }
+    intros [clk r7] [clk' r7'] [Hr Hc]. cbn [fst snd] in Hr, Hc. subst r7'. cbv beta iota.
+    (* extended temporal reference *)
+    apply bind_eq.
+    { rewrite Hc. destruct clk' as [c|]; [|reflexivity]. step_read. change (2 ^ 2) with 4 in *.
+      rewrite Z.shiftl_mul_pow2 by lia. change (2 ^ 8) with 256. rewrite wrap_id by krange. reflexivity. }
+    intros [tr r8]. cbv beta iota.
+    (* UUI, SSS *)
+    apply bind_eq. { rewrite bridge_p_decode_uui. reflexivity. } intros [mvr r9]. cbv beta iota.
+    apply bind_eq. { rewrite bridge_p_decode_sss. reflexivity. } intros [sss r10]. cbv beta iota.
+    (* ELNUM / RLNUM *)
+    apply bind_eq. { rewrite bridge_p_decode_elnum_rlnum. reflexivity. } intros [lay r11]. cbv beta iota.
+    (* RPSMF, TRPI *)
+    apply bind_eq. { rewrite bridge_p_decode_rpsmf. reflexivity. } intros [rps r12]. cbv beta iota.
+    apply bind_eq.
+    { rewrite bridge_p_decode_trpi. destruct (has os' REFERENCE_PICTURE_SELECTION); [|reflexivity].
+      destruct (decode_trpi r12) as [[a b]| | |]; reflexivity. }
+    intros [trp r13]. cbv beta iota.
+    (* BCM: the message itself is unimplemented; only the reader continues *)
+    eapply (bind_rel (fun x x' => snd x = x')).
+    { destruct (has os' REFERENCE_PICTURE_SELECTION); [|reflexivity]. rewrite <- bridge_p_decode_bcm.
+      destruct (p_decode_bcm r13) as [[a b]| | |]; reflexivity. }
+    intros [bcm r14] r14' Hr. cbn [snd] in Hr. subst r14'. cbv beta iota.
+    (* RPRP: unimplemented in the code; the condition under which it would be read *)
+    eapply (bind_rel (fun x (_ : unit) => snd x = r14)).
+    { match goal with |- res_rel _ (if ?c then _ else _) _ => destruct c end; reflexivity. }
+    intros [rp r15] [] Hr. cbn [snd] in Hr. subst r15. cbv beta iota.
+    (* PQUANT *)
+    apply bind_eq; [reflexivity|]. intros [q r16]. cbv beta iota.
+    (* CPM / PSBI when no PLUSPTYPE carried it *)
+    eapply (bind_rel (fun x x' => fst x = Some (fst x') /\ snd x = snd x')).
+    { destruct mx' as [m|]; [cbn; split; reflexivity|]. rewrite bridge_p_decode_cpm_and_psbi.
+      destruct (decode_cpm_and_psbi r16) as [[m r17]| | |]; cbn; auto. }
+    intros [mx2 r17] [m r17'] [Hm Hr]. cbn [fst snd] in Hm, Hr. subst mx2 r17'. cbv beta iota.
+    (* TRB / DBQUANT *)
+    eapply (bind_rel (fun x x' => let '(pbr', pbq', r') := x' in x = ((pbr', pbq'), r'))).
+    { rewrite Hc.
+      assert (Hpb : forall (b : bool) rd,
+                res_rel (fun (x : (option Z * option Z) * reader) (x' : option Z * option Z * reader) => let '(pbr', pbq', r') := x' in x = ((pbr', pbq'), r'))
+                  (let* (v124, r125) := p_decode_trb b rd in let* (v126, r127) := p_decode_dbquant r125 in Ok ((Some v124, Some v126), r127))
+                  (let* (trb, r15) := read_bits 8 (if b then 5 else 3) rd in let* (dbq, r16) := read_bits 8 2 r15 in Ok (Some trb, Some (5 + dbq), r16))).
+      { intros b rd. rewrite bridge_p_decode_trb. destruct (read_bits 8 (if b then 5 else 3) rd) as [[trb r18]| | |]; cbn [bind res_rel]; try reflexivity.
+        rewrite bridge_p_decode_dbquant. destruct (read_bits 8 2 r18) as [[dbq r19]| | |]; cbn; reflexivity. }
+      destruct t'; try reflexivity; (destruct clk'; apply Hpb). }
+    intros [[pbr pbq] r18] [[pbr' pbq'] r18'] Hx. inversion Hx; subst. cbv beta iota.
+    (* PEI *)
+    reflexivity.
 Qed.
